@@ -133,34 +133,41 @@ func c10Skip(r *R) {
 	if s := r.one("C10.3", fn, "github.com/ipfs/go-graphsync/donotsendfirstblocks.EncodeDoNotSendFirstBlocks"); s != nil {
 		r.argIs("C10.3", s, 0, "channel.ReceivedCidsTotal()", "number of blocks the sender is told to skip")
 	}
-	ge := r.fn("C10.3", "transport/graphsync", "Transport", "getRestartExtension")
-	if ge != nil {
-		n := 0
-		for _, pt := range r.pathsOf("C10.3", ge) {
-			if pt.End != "return" {
-				continue
-			}
-			n++
-			if pt.Has("-channel==nil") {
-				r.c.Check(pt.Count(r.p.Is("transport/graphsync.getDoNotSendFirstBlocksExtension")) == 1 && strings.HasPrefix(pt.RetDesc(0), "transport/graphsync.getDoNotSendFirstBlocksExtension(channel)"), "C10.3", fmt.Sprintf("getRestartExtension/path#%d", n), r.p.Pos(ge.Pos()), "stored channel ⇒ skip extension", "a restart with a stored channel does not carry the skip-blocks extension")
-			} else {
-				r.c.Check(pt.RetDesc(0) == "nil", "C10.3", fmt.Sprintf("getRestartExtension/path#%d", n), r.p.Pos(ge.Pos()), "no stored channel ⇒ no extension", "skip extension built without a stored channel")
-			}
-		}
-		r.c.Floor("C10.3", n, 2, "paths of getRestartExtension")
-	}
+	// OpenChannel: with a stored channel the request carries that extension, without
+	// one it does not (the helper between the two, when present, is walked through)
 	oc := r.fn("C10.3", "transport/graphsync", "Transport", "OpenChannel")
 	if oc != nil {
-		ge := r.one("C10.3", oc, "(*transport/graphsync.Transport).getRestartExtension")
 		op := r.one("C10.3", oc, "(*transport/graphsync.dtChannel).open")
-		if ge != nil && op != nil {
-			r.argIs("C10.3", ge, 2, "channel", "the stored channel")
-			exts := r.d.Of(core.Arg(op.Common(), 6))
-			r.c.Check(strings.Contains(exts, r.v(ge)+"#0"), "C10.3", "OpenChannel/exts", r.p.InstrPos(op), "restart extension appended to the request's extensions", "the graphsync request is opened with extensions "+exts+", which do not include the restart extension")
+		if op != nil {
 			r.argIs("C10.3", op, 5, "channel", "stored channel handed to open")
 			r.argIs("C10.3", op, 1, "channelID", "channel id")
 			r.argIs("C10.3", op, 2, "dataSender", "peer the request is sent to")
 		}
+		isSkip := r.p.Is("transport/graphsync.getDoNotSendFirstBlocksExtension")
+		nWith, nWithout := 0, 0
+		for _, pt := range r.pathsThroughHelpers("C10.3", oc, r.p.Func("transport/graphsync", "Transport", "getRestartExtension")) {
+			io := pt.Index(r.p.Is("(*transport/graphsync.dtChannel).open"))
+			if io < 0 {
+				continue
+			}
+			exts := pt.ArgDesc(pt.Evs[io], 6)
+			is := pt.Index(isSkip)
+			switch {
+			case pt.HasBefore(pt.Evs[io].Instr, "-channel==nil"):
+				nWith++
+				ok := pt.Count(isSkip) == 1 && is < io && pt.ArgDesc(pt.Evs[is], 0) == "channel" &&
+					strings.Contains(exts, "transport/graphsync.getDoNotSendFirstBlocksExtension(channel)#0") &&
+					pt.HasBefore(pt.Evs[io].Instr, "+transport/graphsync.getDoNotSendFirstBlocksExtension(channel)#1==nil")
+				r.c.Check(ok, "C10.3", fmt.Sprintf("OpenChannel/restart-path#%d", nWith), r.p.InstrPos(pt.Evs[io].Instr), "stored channel ⇒ request carries the skip extension", "a restart with a stored channel opens the graphsync request with extensions "+exts+", which do not include the skip-blocks extension: "+pt.Describe())
+			case pt.HasBefore(pt.Evs[io].Instr, "+channel==nil"):
+				nWithout++
+				r.c.Check(is < 0 && !strings.Contains(exts, "getDoNotSendFirstBlocksExtension"), "C10.3", fmt.Sprintf("OpenChannel/fresh-path#%d", nWithout), r.p.InstrPos(pt.Evs[io].Instr), "no stored channel ⇒ no skip extension", "skip extension built without a stored channel: "+pt.Describe())
+			default:
+				r.c.Bad("C10.3", fmt.Sprintf("OpenChannel/undecided-path#%d", len(r.c.Obs)), r.p.InstrPos(pt.Evs[io].Instr), "the request is opened without testing whether there is a stored channel: "+pt.Describe())
+			}
+		}
+		r.c.Floor("C10.3", nWith, 1, "paths of OpenChannel opening with a stored channel")
+		r.c.Floor("C10.3", nWithout, 1, "paths of OpenChannel opening without one")
 	}
 }
 
